@@ -33,7 +33,7 @@ m("no_string_operand_roots", "C17 C06", [(
             if !self.gray_stack.is_empty() {""",
 """            #[cfg(feature = "abra_verif")]
             if !self.gray_stack.is_empty() {""")])
-m("alloc_string_white_during_marking", "C06 C17", [(
+m("alloc_string_white_during_marking", "none (equivalent mutant under the root re-scan)", [(
 """        let header = ObjectHeader {
             kind: ObjectKind::String,
             visited: match &vm.gc_state {
@@ -174,6 +174,16 @@ m("concat_drops_byte_at_slice_boundary", "C17 C10", [(
                         self.concat_string_builder
                             .push(b.as_bytes()[self.string_op_index2]);
                     }""")])
+
+m("revert_D8_runtime_drop_keeps_queued_cycles", "C07", [(
+"""            let messages: Vec<ChannelMessage> = queue.lock().unwrap().drain(..).collect();
+            for message in &messages {
+                message.collect_channels(&mut pending);
+            }""",
+"""            let messages: Vec<ChannelMessage> = Vec::new();
+            for message in &messages {
+                message.collect_channels(&mut pending);
+            }""")])
 
 def main():
     os.makedirs("/verif/mutants", exist_ok=True)
